@@ -439,8 +439,32 @@ class Ref:
         is_tokn = name.lstrip('_')[:1].isupper()
         q = p if is_tokn else self.skip(p)
         if self.cfg.left_recursion and name in self.lr_cycle_members:
+            if 'static-min-name-leader' in self.quirks and name != self.static_leader(name):
+                return self.rule_body(rule, q)
             return self.lr_call(rule, q)
         return self.rule_body(rule, q)
+
+    def static_leader(self, name: str) -> str:
+        """Emulation of the implementation's leader choice (known defect: the leader is
+        fixed per component as the alphabetically smallest rule lying on every cycle, whatever
+        rule the parse enters the cycle through)."""
+        scc = self.lr_cycle_members[name]
+        nul = self._nullable_rules()
+        graph = {n: {c for c in self._left_calls(self.rules[n].exp, nul) if c in scc} for n in scc}
+
+        def cyclic(nodes):
+            for s0 in nodes:
+                seen, todo = set(), [c for c in graph[s0] if c in nodes]
+                while todo:
+                    x = todo.pop()
+                    if x == s0:
+                        return True
+                    if x not in seen:
+                        seen.add(x)
+                        todo += [c for c in graph[x] if c in nodes]
+            return False
+        cands = [r for r in scc if not cyclic(scc - {r})]
+        return min(cands or scc)
 
     def lr_call(self, rule: Rule, q: int):
         key = (rule.name, q)
